@@ -94,7 +94,7 @@ func discoverWrites(kind string) []string {
 func gen(out *vc.Out, r *vc.Rand, thorough bool) {
 	var fast, slow []string
 	add := func(c string) {
-		if strings.Contains(c, " X") || strings.HasPrefix(c, "snode") {
+		if strings.Contains(c, " X") || strings.Contains(c, " Z") || strings.HasPrefix(c, "snode") {
 			slow = append(slow, c)
 		} else {
 			fast = append(fast, c)
@@ -230,6 +230,29 @@ func gen(out *vc.Out, r *vc.Rand, thorough bool) {
 		}
 		add(snode(ths, evs))
 		out.Count("samenode:random")
+	}
+
+	// L: a call stuck (for longer than a short lease would last) between taking the claim and writing: the mapping
+	// write of node A is held while 3.5 s pass and node B activates / revokes the same code; the claim must still hold
+	stuck := [][]string{
+		{"C", "t0", "t0", "t0", "Z", "t1", "t1", "t1", "t1", "t1", "t1"},       // A stuck before the mapping write, B runs through
+		{"C", "t0", "t0", "t0", "t0", "Z", "t1", "t1", "t1", "t1", "t1", "t1"}, // A stuck before the write-back
+	}
+	if thorough {
+		stuck = append(stuck,
+			[]string{"C", "t0", "Z", "t1", "t1", "t1", "Z", "t1", "t1", "t1"},       // two stalls (7 s) under one claim
+			[]string{"C", "t0", "t0", "Z", "t1", "t0", "t0", "Z", "t1", "t1", "t1"}, // B retries after the second stall
+			[]string{"C", "t0", "t0", "t0", "t0", "t0", "Z", "t1", "t1"},            // stuck before the release only
+		)
+	}
+	for i, evs := range stuck {
+		add(schedCase(500, 1, 1, 50, 0, 0, two, evs))
+		out.Count("stuck-call:lease")
+		if thorough || i == 0 {
+			add(schedCase(500, 2, 1, 50, 0, 0, []tspec{{"a", 101, 1, "", 0}, {"r", 0, 0, "", 0}}, evs))
+			add("nodes" + strings.TrimPrefix(schedCase(500, 1, 1, 50, 0, 0, two, evs), "sched"))
+			out.Count("stuck-call:lease")
+		}
 	}
 
 	// U: unique code generation on a tiny code space (the real CreateConnectionCode keeps drawing codes that exist)
